@@ -21,7 +21,7 @@ res_apply=fail; res_build=fail; res_suite=fail; res_demo_with=unknown; res_demo_
 ( cd $scratch && go build ./... ) >/dev/null 2>&1 && res_build=ok
 ( cd $scratch && go test -vet=off -count=1 ./... 2>&1 | grep -q "^ok  	github.com/vedadiyan/genql" ) && res_suite=ok
 cp $dst/zz_demo_test.go $scratch/$demodir/zz_demo_test.go
-racef=""; grep -qi "race" $dst/NOTES.md 2>/dev/null && racef="-race -count=5"
+racef=""; grep -qi "race" $dst/NOTES.md 2>/dev/null && racef="-race"
 if ( cd $scratch && go test -vet=off -count=1 $racef -run 'TestDemo' ./$demodir ) >$dst/demo_with.log 2>&1; then res_demo_with=PASS; else res_demo_with=FAIL; fi
 ( cd $scratch && git checkout -q -- . )
 if ( cd $scratch && go test -vet=off -count=1 $racef -run 'TestDemo' ./$demodir ) >$dst/demo_without.log 2>&1; then res_demo_without=PASS; else res_demo_without=FAIL; fi
